@@ -5,12 +5,50 @@ import (
 	"math"
 	"os"
 	"sort"
+	"strings"
 	"testing"
+	"time"
 
 	"pgregory.net/rapid"
 
+	"github.com/apache/skywalking-banyandb/banyand/internal/storage"
+	"github.com/apache/skywalking-banyandb/pkg/fs"
 	"github.com/apache/skywalking-banyandb/verifkit"
 )
+
+// waitGC: once no query pins an old snapshot, the part directories on disk are exactly the file
+// parts of the current snapshot (merged inputs deleted, nothing else removed). Deletion runs in a
+// goroutine, so this is a bounded poll; its expiry is reported as a violation of "deleted once no
+// reader needs them" only after 5 s.
+func (tb *l1Table) waitGC() error {
+	want := map[string]bool{}
+	for _, p := range tb.parts() {
+		if !p.mem {
+			want[partName(p.id)] = true
+		}
+	}
+	var last string
+	for i := 0; i < 500; i++ {
+		have := map[string]bool{}
+		for _, e := range fs.NewLocalFileSystem().ReadDir(tb.dir) {
+			if e.IsDir() {
+				have[e.Name()] = true
+			}
+		}
+		ok := len(have) == len(want)
+		for n := range want {
+			if !have[n] {
+				return fmt.Errorf("part %s is in the current snapshot but its directory is gone", n)
+			}
+		}
+		if ok {
+			return nil
+		}
+		last = fmt.Sprintf("on disk %v, snapshot %v", have, want)
+		time.Sleep(10 * time.Millisecond)
+	}
+	return fmt.Errorf("replaced parts were not deleted after all readers finished: %s", last)
+}
 
 // ---------------------------------------------------------------------------------------------
 // interpreter of measure histories
@@ -28,6 +66,8 @@ type histStats struct {
 	bigBlock                                             bool
 	nonPlainColumn                                       bool
 	dense                                                bool
+	snapshots, pinnedQueries                             int
+	snapWithMem, snapAfterMerge, pinAcrossMerge          bool
 }
 
 func caseSids(c mCase) []int {
@@ -122,6 +162,43 @@ func denseRows(op mOp, sc mSchema, seq *int64) []mRow {
 	return rows
 }
 
+// checkSnapshotDir: the manifest of a snapshot lists only parts that are present and valid.
+func checkSnapshotDir(dst string) error {
+	lfs := fs.NewLocalFileSystem()
+	var manifests []string
+	present := map[string]bool{}
+	for _, e := range lfs.ReadDir(dst) {
+		if e.IsDir() {
+			present[e.Name()] = true
+		} else if strings.HasSuffix(e.Name(), snapshotSuffix) {
+			manifests = append(manifests, e.Name())
+		}
+	}
+	if len(manifests) != 1 {
+		return fmt.Errorf("snapshot directory holds %d manifests", len(manifests))
+	}
+	names, err := storage.ReadSnapshotPartNames(lfs, dst+"/"+manifests[0])
+	if err != nil {
+		return fmt.Errorf("snapshot manifest unreadable: %v", err)
+	}
+	listed := map[string]bool{}
+	for _, n := range names {
+		listed[n] = true
+		if !present[n] {
+			return fmt.Errorf("snapshot manifest %s lists part %s which is not in the snapshot directory (present: %v)", manifests[0], n, present)
+		}
+		if verr := validatePartMetadata(lfs, dst+"/"+n); verr != nil {
+			return fmt.Errorf("snapshot part %s is incomplete: %v", n, verr)
+		}
+	}
+	for n := range present {
+		if !listed[n] {
+			return fmt.Errorf("snapshot directory holds part %s which its manifest does not list", n)
+		}
+	}
+	return nil
+}
+
 func renderRows(rows []outRow) []string {
 	out := make([]string, 0, len(rows))
 	for _, r := range rows {
@@ -147,6 +224,19 @@ func runMeasureHistory(x *verifkit.Ctx, c mCase) (st histStats, err error) {
 	var seq int64
 	lastVariant := 0
 	partsOfKey := map[modelKey]map[int]bool{} // key -> set of write-op indexes (proxy for parts before merges)
+	type batchRec struct {
+		rows    []mRow
+		variant int
+	}
+	var allBatches []batchRec
+	flushedBatches := 0
+	open := map[int]*openQuery{}
+	pinnedMerges := map[int]int{}
+	defer func() {
+		for _, oq := range open {
+			_, _, _ = oq.drain()
+		}
+	}()
 	fullQuery := func(variant int, order string) mQuery {
 		return mQuery{Sids: sids, MinT: -1 << 40, MaxT: 1 << 40, Variant: variant, Order: order}
 	}
@@ -195,8 +285,9 @@ func runMeasureHistory(x *verifkit.Ctx, c mCase) (st histStats, err error) {
 					st.keysInTwoParts = true
 				}
 			}
-			tb.write(c.Schemas[v], rows)
+			tb.writeSeg(c.Schemas[v], rows, op.Seg)
 			m.add(rows, v)
+			allBatches = append(allBatches, batchRec{rows, v})
 			lastVariant = v
 			st.writes++
 			if len(rows) > maxBlockLength {
@@ -205,11 +296,107 @@ func runMeasureHistory(x *verifkit.Ctx, c mCase) (st histStats, err error) {
 		case "flush":
 			if tb.flushAll() > 0 {
 				st.flushes++
+				flushedBatches = len(allBatches)
 			}
 		case "mergemem":
 			if tb.mergeMem() {
 				st.memMerges++
+				flushedBatches = len(allBatches)
 			}
+			// a merge round replaces every group of >= 2 memory parts of one segment by its merged part:
+			// neither the inputs nor a second copy may stay visible (a reader would see both)
+			if perr := tb.memGroupsMerged(); perr != nil {
+				return st, fmt.Errorf("%s: %v", what, perr)
+			}
+		case "snapshot":
+			// C19: a file snapshot taken now opens as a table holding exactly the flushed batches
+			dst := fmt.Sprintf("%s/snap-%d", dir, i)
+			hasMem := false
+			for _, pi := range tb.parts() {
+				if pi.mem {
+					hasMem = true
+				}
+			}
+			ok, serr := tb.tst.TakeFileSnapshot(dst)
+			if serr != nil {
+				return st, fmt.Errorf("op %d snapshot: %v", i, serr)
+			}
+			if !ok {
+				if flushedBatches > 0 {
+					return st, fmt.Errorf("op %d snapshot: reported nothing to snapshot although %d batches are flushed", i, flushedBatches)
+				}
+				continue
+			}
+			st.snapshots++
+			if hasMem {
+				st.snapWithMem = true
+			}
+			if st.merges > 0 {
+				st.snapAfterMerge = true
+			}
+			if err := checkSnapshotDir(dst); err != nil {
+				return st, fmt.Errorf("op %d snapshot: %v", i, err)
+			}
+			want := newModel()
+			for _, b := range allBatches[:flushedBatches] {
+				want.add(b.rows, b.variant)
+			}
+			rt := openL1(dst, nil)
+			for v := range c.Schemas {
+				got, _, qerr := rt.query(c.Schemas[v], fullQuery(v, "sid"))
+				if qerr != nil {
+					rt.close()
+					return st, fmt.Errorf("op %d snapshot: query on the restored copy failed: %v", i, qerr)
+				}
+				if cerr := want.compare(got, c.Schemas, fullQuery(v, "sid")); cerr != nil {
+					rt.close()
+					return st, fmt.Errorf("op %d snapshot: restored copy does not hold exactly the %d flushed batches (of %d acknowledged): %v", i, flushedBatches, len(allBatches), cerr)
+				}
+			}
+			if ierr := rt.allPartInvariants(); ierr != nil {
+				rt.close()
+				return st, fmt.Errorf("op %d snapshot: %v", i, ierr)
+			}
+			rt.close()
+			continue
+		case "qopen":
+			if op.Query == nil || open[op.Slot] != nil {
+				continue
+			}
+			q := *op.Query
+			if len(q.Sids) == 0 {
+				q.Sids = sids
+			}
+			oq, oerr := tb.qopen(c.Schemas[q.Variant%len(c.Schemas)], q, m)
+			if oerr != nil {
+				return st, fmt.Errorf("op %d qopen: %v", i, oerr)
+			}
+			if oq != nil {
+				open[op.Slot] = oq
+				pinnedMerges[op.Slot] = st.merges + st.memMerges + st.flushes
+			}
+			continue
+		case "qdrain":
+			oq := open[op.Slot]
+			if oq == nil {
+				continue
+			}
+			delete(open, op.Slot)
+			got, chunks, derr := oq.drain()
+			if derr != nil {
+				return st, fmt.Errorf("op %d: a query pinned before %d maintenance steps failed while reading: %v", i, st.merges+st.memMerges+st.flushes-pinnedMerges[op.Slot], derr)
+			}
+			if cerr := oq.want.compare(got, c.Schemas, oq.q); cerr != nil {
+				return st, fmt.Errorf("op %d: pinned query does not see the state at its start (snapshot isolation): %v", i, cerr)
+			}
+			if oerr := checkOrder(got, chunks, oq.q); oerr != nil {
+				return st, fmt.Errorf("op %d: pinned query: %v", i, oerr)
+			}
+			st.pinnedQueries++
+			if st.merges+st.memMerges+st.flushes > pinnedMerges[op.Slot] {
+				st.pinAcrossMerge = true
+			}
+			continue
 		case "merge":
 			// equivalence of the merge output with the union of its inputs
 			nin, conflict, merr := mergeWithEquivalence(tb, c, op.Pick, sids)
@@ -263,6 +450,22 @@ func runMeasureHistory(x *verifkit.Ctx, c mCase) (st histStats, err error) {
 			if tb.primaryBlocks() > 1 {
 				st.multiPrimary = true
 			}
+		}
+	}
+	for slot, oq := range open {
+		delete(open, slot)
+		got, _, derr := oq.drain()
+		if derr != nil {
+			return st, fmt.Errorf("pinned query failed while reading at the end: %v", derr)
+		}
+		if cerr := oq.want.compare(got, c.Schemas, oq.q); cerr != nil {
+			return st, fmt.Errorf("pinned query drained at the end does not see the state at its start: %v", cerr)
+		}
+		st.pinnedQueries++
+	}
+	if st.merges > 0 || st.memMerges > 0 {
+		if gerr := tb.waitGC(); gerr != nil {
+			return st, gerr
 		}
 	}
 	// every schema variant reads back consistently at the end
@@ -795,5 +998,157 @@ func TestVerifC09Measure(t *testing.T) {
 			return nil
 		},
 		SampleOf: sampleOfCase,
+	})
+}
+
+// ---------------------------------------------------------------------------------------------
+// C05 — queries see one consistent snapshot while maintenance runs (measure, deterministic part)
+// C19 — a file snapshot is a consistent, openable point-in-time copy (measure shard)
+// ---------------------------------------------------------------------------------------------
+
+func genSplitCase(t *rapid.T, p genProfile, extra []string) mCase {
+	c := mCase{Schemas: genSchemas(t, p)}
+	var seq int64
+	nb := rapid.IntRange(2, p.maxBatches).Draw(t, "batches")
+	multiSeg := rapid.IntRange(0, 2).Draw(t, "multiseg") == 0
+	for b := 0; b < nb; b++ {
+		w := mOp{Kind: "write", Rows: genRows(t, p, c.Schemas[0], rapid.IntRange(1, p.maxRows).Draw(t, "rows"), &seq)}
+		if multiSeg {
+			// memory parts of several segments pile up in one table (a liaison write queue): runs of 2..3 per segment
+			w.Seg = int64(1 + b%3)
+			c.Ops = append(c.Ops, w, mOp{Kind: "write", Seg: w.Seg, Rows: genRows(t, p, c.Schemas[0], rapid.IntRange(1, p.maxRows).Draw(t, "rowsb"), &seq)})
+			if b%2 == 1 {
+				// >= 2 memory parts of each of two segments are pending: one merge round handles both groups
+				c.Ops = append(c.Ops, mOp{Kind: "mergemem"})
+			} else if rapid.Bool().Draw(t, "pileup") {
+				continue
+			}
+		} else {
+			c.Ops = append(c.Ops, w)
+		}
+		for k := 0; k < rapid.IntRange(1, 4).Draw(t, "nsteps"); k++ {
+			kind := rapid.SampledFrom(append([]string{"flush", "flush", "merge", "merge", "mergemem", "write"}, extra...)).Draw(t, "step")
+			switch kind {
+			case "merge":
+				c.Ops = append(c.Ops, mOp{Kind: "merge", Pick: rapid.SliceOfN(rapid.IntRange(0, 7), 2, 4).Draw(t, "pick")})
+			case "write":
+				c.Ops = append(c.Ops, mOp{Kind: "write", Rows: genRows(t, p, c.Schemas[0], rapid.IntRange(1, p.maxRows).Draw(t, "rows2"), &seq)})
+			case "qopen":
+				slot := rapid.IntRange(1, 3).Draw(t, "slot")
+				c.Ops = append(c.Ops, mOp{Kind: "qopen", Slot: slot, Query: genQuery(t, p, c.Schemas)})
+				// the window of the pinned query: 1..3 state-changing steps, usually a publication
+				for w := 0; w < rapid.IntRange(1, 3).Draw(t, "window"); w++ {
+					switch rapid.SampledFrom([]string{"flush", "merge", "merge", "mergemem", "write"}).Draw(t, "wstep") {
+					case "merge":
+						c.Ops = append(c.Ops, mOp{Kind: "merge", Pick: rapid.SliceOfN(rapid.IntRange(0, 7), 2, 4).Draw(t, "wpick")})
+					case "write":
+						c.Ops = append(c.Ops, mOp{Kind: "write", Rows: genRows(t, p, c.Schemas[0], rapid.IntRange(1, p.maxRows).Draw(t, "wrows"), &seq)})
+					case "mergemem":
+						c.Ops = append(c.Ops, mOp{Kind: "mergemem"})
+					default:
+						c.Ops = append(c.Ops, mOp{Kind: "flush"})
+					}
+				}
+				if rapid.IntRange(0, 3).Draw(t, "drainnow") > 0 {
+					c.Ops = append(c.Ops, mOp{Kind: "qdrain", Slot: slot})
+				}
+			case "qdrain":
+				c.Ops = append(c.Ops, mOp{Kind: "qdrain", Slot: rapid.IntRange(1, 3).Draw(t, "slot")})
+			default:
+				c.Ops = append(c.Ops, mOp{Kind: kind})
+			}
+		}
+	}
+	return c
+}
+
+func TestVerifC05Measure(t *testing.T) {
+	p := genProfile{maxSeries: 4, maxTimes: 10, maxBatches: 6, maxRows: 15, versions: []int64{1, 2, 3}}
+	verifkit.Run(t, verifkit.Spec[mCase]{
+		Property: "C05", Unit: "measure_split",
+		Rule: "measure histories whose coarse steps are interleaved with SPLIT queries: qopen pins the current snapshot and builds the block cursors, qdrain " +
+			"(any number of steps later) loads the blocks and merges them; between the two the history writes, flushes, merges memory parts and merges arbitrary " +
+			"subsets of file parts (publication + deletion of replaced parts) - up to 3 queries are open at once; oracle: a drained query equals the model AS OF " +
+			"ITS OPEN (snapshot isolation, batch all-or-nothing), never errors or reads a deleted file, non-pinned queries equal the current model after every " +
+			"step, and once every pin is released the part directories equal the current snapshot's file parts (replaced parts deleted, nothing else); " +
+			"non-trivial = a query whose open..drain window contains a flush or merge publication",
+		Gen: func(t *rapid.T, _ *verifkit.KnownSet) mCase {
+			return genSplitCase(t, p, []string{"qopen", "qopen", "qopen", "qdrain", "qdrain"})
+		},
+		SampleOf: sampleOfCase,
+		Check: func(x *verifkit.Ctx, c mCase) error {
+			st, err := runMeasureHistory(x, c)
+			if err != nil {
+				return err
+			}
+			x.LabelIf(st.pinAcrossMerge, "query pinned across a publication")
+			x.LabelIf(st.pinnedQueries > 0, "pinned query")
+			x.LabelIf(st.merges > 0, "file merge")
+			if st.pinAcrossMerge {
+				x.NonTrivial()
+			}
+			return nil
+		},
+		MinLabelFrac: map[string]float64{"query pinned across a publication": 0.3, "file merge": 0.2},
+	})
+}
+
+func TestVerifC19Measure(t *testing.T) {
+	p := genProfile{maxSeries: 4, maxTimes: 10, maxBatches: 6, maxRows: 15, versions: []int64{1, 2, 3}}
+	verifkit.Run(t, verifkit.Spec[mCase]{
+		Property: "C19", Unit: "measure_snapshot",
+		Rule: "measure shard histories (writes, flushes, memory-part merges, merges of arbitrary file-part subsets) with TakeFileSnapshot requests at generated " +
+			"positions - in particular while memory parts exist and right after merges; oracle: the snapshot directory holds exactly one manifest, every part it " +
+			"lists is present and passes validatePartMetadata, no unlisted part is present, the directory opens with the real open path and a query on the " +
+			"restored copy returns exactly the batches flushed before the request (a prefix of the acknowledged batches, never a mixture); " +
+			"non-trivial = a snapshot taken while memory parts exist or after a merge",
+		Known: []verifkit.Known[mCase]{{Key: "snapshot-manifest-lists-memory-parts", Match: func(c mCase) bool {
+			// class: a snapshot request preceded by a write with no flush in between (memory parts exist)
+			dirty := false
+			for _, op := range c.Ops {
+				switch op.Kind {
+				case "write":
+					dirty = true
+				case "flush":
+					dirty = false
+				case "snapshot":
+					if dirty {
+						return true
+					}
+				}
+			}
+			return false
+		}}},
+		Gen: func(t *rapid.T, ks *verifkit.KnownSet) mCase {
+			c := genSplitCase(t, p, []string{"snapshot", "snapshot", "snapshot"})
+			if ks.Active("snapshot-manifest-lists-memory-parts") {
+				// construct around the recorded finding: flush before every snapshot request
+				var ops []mOp
+				for _, op := range c.Ops {
+					if op.Kind == "snapshot" {
+						ops = append(ops, mOp{Kind: "flush"})
+						ks.Excluded("snapshot-manifest-lists-memory-parts")
+					}
+					ops = append(ops, op)
+				}
+				c.Ops = ops
+			}
+			return c
+		},
+		SampleOf: sampleOfCase,
+		Check: func(x *verifkit.Ctx, c mCase) error {
+			st, err := runMeasureHistory(x, c)
+			if err != nil {
+				return err
+			}
+			x.LabelIf(st.snapshots > 0, "snapshot taken")
+			x.LabelIf(st.snapWithMem, "snapshot while memory parts exist")
+			x.LabelIf(st.snapAfterMerge, "snapshot after a merge")
+			if st.snapWithMem || st.snapAfterMerge {
+				x.NonTrivial()
+			}
+			return nil
+		},
+		MinLabelFrac: map[string]float64{"snapshot taken": 0.5},
 	})
 }
